@@ -1,0 +1,62 @@
+//go:build verif
+
+/*
+SPDX-License-Identifier: Apache-2.0
+*/
+
+// Package verifhooks re-exports internal packages for the external verification harness.
+// It is compiled only with the "verif" build tag.
+package verifhooks
+
+import (
+	"github.com/trustbloc/sidetree-core-go/pkg/internal/jsoncanonicalizer"
+	internaljws "github.com/trustbloc/sidetree-core-go/pkg/internal/jws"
+	"github.com/trustbloc/sidetree-core-go/pkg/internal/signutil"
+	"github.com/trustbloc/sidetree-core-go/pkg/jws"
+)
+
+// JSONWebSignature is the internal JWS type.
+type JSONWebSignature = internaljws.JSONWebSignature
+
+// InternalJWK is the internal JWK type.
+type InternalJWK = internaljws.JWK
+
+// VerifyJWS re-exports internal/jws.VerifyJWS.
+func VerifyJWS(compact string, jwk *jws.JWK) (*JSONWebSignature, error) {
+	return internaljws.VerifyJWS(compact, jwk)
+}
+
+// ParseJWS re-exports internal/jws.ParseJWS.
+func ParseJWS(compact string) (*JSONWebSignature, error) {
+	return internaljws.ParseJWS(compact)
+}
+
+// VerifySignature re-exports internal/jws.VerifySignature.
+func VerifySignature(jwk *jws.JWK, signature, msg []byte) error {
+	return internaljws.VerifySignature(jwk, signature, msg)
+}
+
+// NewJWS re-exports internal/jws.NewJWS.
+func NewJWS(protected, unprotected jws.Headers, payload []byte, signer internaljws.Signer) (*JSONWebSignature, error) {
+	return internaljws.NewJWS(protected, unprotected, payload, signer)
+}
+
+// SignModel re-exports internal/signutil.SignModel.
+func SignModel(model interface{}, signer signutil.Signer) (string, error) {
+	return signutil.SignModel(model, signer)
+}
+
+// SignPayload re-exports internal/signutil.SignPayload.
+func SignPayload(payload []byte, signer signutil.Signer) (string, error) {
+	return signutil.SignPayload(payload, signer)
+}
+
+// Transform re-exports internal/jsoncanonicalizer.Transform.
+func Transform(jsonData []byte) ([]byte, error) {
+	return jsoncanonicalizer.Transform(jsonData)
+}
+
+// NumberToJSON re-exports internal/jsoncanonicalizer.NumberToJSON.
+func NumberToJSON(v float64) (string, error) {
+	return jsoncanonicalizer.NumberToJSON(v)
+}
